@@ -225,10 +225,11 @@ inductive AModel (K : Type)
   | empirical (t : Table K)          -- `Empirical1D`: no `integrate`
   | const1D (amp : K)                -- astropy's `Const1D`: no `integrate`
   | sum (a b : AModel K)             -- a compound model: no `integrate`
+  | redshift (zp1 : K) (m : AModel K) -- a source with `z ≠ 0` (`RedshiftScaleFactor(z).inverse | model`, `zp1 = 1 + z`): no `integrate`
 
 /-- `hasattr(self.model, 'integrate')` -/
 def AModel.hasIntegrate : AModel K → Bool
-  | .empirical _ | .const1D _ | .sum _ _ => false
+  | .empirical _ | .const1D _ | .sum _ _ | .redshift _ _ => false
   | _ => true
 
 /-- `self.model.integrate(x)`: value and unit -/
@@ -245,7 +246,7 @@ def AModel.integrate (C : AConst K) (T : Transc K) (m : AModel K) (x : List K) :
   | .trapezoid amp _ w s => (trapezoidIntegrate amp w s).map (·, .length)
   | .blackbody t => .ok (bbIntegrate C T t, .power)
   | .blackbodyNorm t => .ok (bbIntegrate C T t * C.omega, .power)
-  | .empirical _ | .const1D _ | .sum _ _ => .error .typeError   -- no such attribute (never reached)
+  | .empirical _ | .const1D _ | .sum _ _ | .redshift _ _ => .error .typeError   -- no such attribute (never reached)
 
 /-- the model sampled in the spectrum's internal unit (PHOTLAM for a source, nothing for a
 unitless spectrum): what `self(x)` returns at one wavelength -/
@@ -269,6 +270,18 @@ def AModel.evalInternal (C : AConst K) (T : Transc K) : AModel K → K → Excep
       let u ← a.evalInternal C T x
       let v ← b.evalInternal C T x
       pure (u + v)
+  | .redshift zp1 m, x => if zp1 = 0 then .error .nan else m.evalInternal C T (x / zp1)
+
+/-- `_model_fconv_wav[modelname]`: the wavelength parameter at which an analytic result is
+converted to the caller's `flux_unit` (only these model classes are converted) -/
+def AModel.fconvWav : AModel K → Option K
+  | .box _ x0 _ => some x0
+  | .gauss _ m _ => some m
+  | .gaussFlux _ m _ => some m
+  | .lorentz _ x0 _ => some x0
+  | .ricker _ x0 _ => some x0
+  | .trapezoid _ x0 _ _ => some x0
+  | _ => none
 
 /-! ## `BaseSpectrum.integrate` -/
 
@@ -318,14 +331,6 @@ def finishUnitless : K × MUnit K → K × ResUnit
   | (v, .length) => (v, .length)
   | (v, _) => (v, .raw)
 
-/-- element-wise `|self(x)|` -/
-def absSamples (C : AConst K) (T : Transc K) (m : AModel K) : List K → Except Err (List K)
-  | [] => .ok []
-  | w :: ws => do
-      let y ← m.evalInternal C T w
-      let ys ← absSamples C T m ws
-      pure (|y| :: ys)
-
 /-- unit carried by a non-finite result of `integrate` (a NaN Quantity still has its unit, and the
 unit-finishing code runs on it) -/
 def AModel.nanUnit : AModel K → MUnit K
@@ -335,17 +340,69 @@ def AModel.nanUnit : AModel K → MUnit K
   | .blackbody _ | .blackbodyNorm _ => .power
   | _ => .length
 
+/-- the caller's `flux_unit=` keyword: absent (or `None`), PHOTLAM, FLAM (by name or as a unit),
+a valid unit that is not a per-wavelength flux density (`SynphotError`), a string astropy
+cannot parse (`ValueError`) -/
+inductive FluxOpt
+  | absent | photlam | flam | notWav | unparsable
+  deriving DecidableEq, Repr
+
+/-- the `flux_unit` check at the top of `integrate`: refused for a unitless spectrum, otherwise
+`_validate_flux_unit(flux_unit, wav_only=True)` -/
+def fluxCheck (unitless : Bool) : FluxOpt → Except Err Unit
+  | .absent => .ok ()
+  | .photlam => if unitless then .error .synphotError else .ok ()
+  | .flam => if unitless then .error .synphotError else .ok ()
+  | .notWav => .error .synphotError
+  | .unparsable => if unitless then .error .synphotError else .error .valueError
+
+/-- `self(x, **kwargs)` at one wavelength for a source: the PHOTLAM sample converted to the
+requested unit (`convert_flux`) -/
+def sampleIn (C : AConst K) (fu : FluxOpt) (w y : K) : K :=
+  match fu with
+  | .flam => y * (C.phys.h * C.phys.c) / w
+  | _ => y
+
+/-- element-wise `|self(x, **kwargs)|` -/
+def absSamplesIn (C : AConst K) (T : Transc K) (fu : FluxOpt) (m : AModel K) :
+    List K → Except Err (List K)
+  | [] => .ok []
+  | w :: ws => do
+      let y ← m.evalInternal C T w
+      let ys ← absSamplesIn C T fu m ws
+      pure (|sampleIn C fu w y| :: ys)
+
+/-- `result * self._internal_flux_unit` when the analytic result is a length -/
+def toSourceUnit : K × MUnit K → K × MUnit K
+  | (v, .length) => (v, .fluxLen .photlam)
+  | r => r
+
+/-- the `flux_unit` conversion of an analytic result: only for sources, only for the model
+classes of `_model_fconv_wav`, at that model's reference wavelength (`convert_flux` of
+`PHOTLAM × Å` to `flux_unit × Å`: unchanged for PHOTLAM, `× hc/λ` for FLAM) -/
+def convAnalytic (C : AConst K) (fu : FluxOpt) (m : AModel K) (r : K × MUnit K) :
+    Except Err (K × MUnit K) :=
+  let r' := toSourceUnit r
+  if fu = .flam ∧ r'.2 = .fluxLen .photlam then
+    match m.fconvWav with
+    | some wav =>
+        if wav = 0 then .error .nan else .ok (r'.1 * (C.phys.h * C.phys.c) / wav, .fluxLen .flam)
+    | none => .ok r'
+  else .ok r'
+
 /-- what `BaseSpectrum.integrate` does with the outcome of `self.model.integrate(x)`: exceptions
-propagate; a number is unit-finished (sources) or returned as it is (unitless spectra); a NaN is
-unit-finished too, so an inconvertible unit raises before the NaN is returned -/
-def finishAnalytic (C : AConst K) (unitless : Bool) (m : AModel K) :
+propagate; a number is converted to the caller's `flux_unit` where the code does that and
+unit-finished (sources) or returned as it is (unitless spectra); a NaN is unit-finished too, so
+an inconvertible unit raises before the NaN is returned -/
+def finishAnalytic (C : AConst K) (unitless : Bool) (fu : FluxOpt) (m : AModel K) :
     Except Err (K × MUnit K) → Except Err (K × ResUnit × Path)
   | .ok r =>
       if unitless then
         let f := finishUnitless r
         pure (f.1, f.2, .analytical)
       else do
-        let f ← finishSource C r
+        let r' ← convAnalytic C fu m r
+        let f ← finishSource C r'
         pure (f.1, f.2, .analytical)
   | .error .nan =>
       if unitless then .error .nan
@@ -354,16 +411,24 @@ def finishAnalytic (C : AConst K) (unitless : Bool) (m : AModel K) :
         .error .nan
   | .error e => .error e
 
-/-- `BaseSpectrum.integrate(wavelengths=x, integration_type=requested)` without `flux_unit`,
-at redshift 0; `unitless`: a bandpass-like spectrum.  Returns value, unit, integrator used. -/
-def specIntegrate (C : AConst K) (T : Transc K) (unitless : Bool) (m : AModel K) (x : List K)
-    (requested : Option IntType) (confDefault : IntType) : Except Err (K × ResUnit × Path) := do
+/-- `BaseSpectrum.integrate(wavelengths=x, integration_type=requested, **kwargs)` at redshift 0
+(a redshifted source is the model `.redshift`); `unitless`: a bandpass-like spectrum; `fu`: the
+`flux_unit` keyword; `extraKw`: some other keyword is present in `kwargs` (`area=…`, an explicit
+`flux_unit=None`, …) — ignored everywhere except that a unitless spectrum cannot be sampled
+with keywords (`TypeError` from `__call__`).  Returns value, unit, integrator used. -/
+def specIntegrate (C : AConst K) (T : Transc K) (unitless : Bool) (fu : FluxOpt) (extraKw : Bool)
+    (m : AModel K) (x : List K) (requested : Option IntType) (confDefault : IntType) :
+    Except Err (K × ResUnit × Path) := do
+  fluxCheck unitless fu
   validateWavelengths x
   let p ← choosePath requested confDefault m.hasIntegrate
   match p with
   | .trapezoid =>
-      let y ← absSamples C T m x
-      pure (|trapzXY x y|, if unitless then .length else .photon, .trapezoid)
-  | .analytical => finishAnalytic C unitless m (m.integrate C T x)
+      if unitless && extraKw then .error .typeError
+      else do
+        let y ← absSamplesIn C T fu m x
+        pure (|trapzXY x y|,
+              if unitless then .length else if fu = .flam then .energy else .photon, .trapezoid)
+  | .analytical => finishAnalytic C unitless fu m (m.integrate C T x)
 
 end Synphot
